@@ -311,8 +311,8 @@ pub fn eval(expr: Node) -> Result<Number, Box<dyn error::Error>> {
                 Number::Integer(n) => Ok(Number::Integer(n)),
                 Number::Float(n) => {
                     let f = n.floor();
-                    if (f <= (i64::MAX as f64)) && (f >= (i64::MIN as f64)) {
-                        Ok(Number::Integer(n as i64))
+                    if (f < (i64::MAX as f64)) && (f >= (i64::MIN as f64)) {
+                        Ok(Number::Integer(f as i64))
                     } else {
                         Ok(Number::Float(f))
                     }
@@ -325,8 +325,8 @@ pub fn eval(expr: Node) -> Result<Number, Box<dyn error::Error>> {
                 Number::Integer(n) => Ok(Number::Integer(n)),
                 Number::Float(n) => {
                     let f = n.ceil();
-                    if (f <= (i64::MAX as f64)) && (f >= (i64::MIN as f64)) {
-                        Ok(Number::Integer(n as i64))
+                    if (f < (i64::MAX as f64)) && (f >= (i64::MIN as f64)) {
+                        Ok(Number::Integer(f as i64))
                     } else {
                         Ok(Number::Float(f))
                     }
@@ -339,8 +339,8 @@ pub fn eval(expr: Node) -> Result<Number, Box<dyn error::Error>> {
                 Number::Integer(n) => Ok(Number::Integer(n)),
                 Number::Float(n) => {
                     let f = n.round();
-                    if (f <= (i64::MAX as f64)) && (f >= (i64::MIN as f64)) {
-                        Ok(Number::Integer(n as i64))
+                    if (f < (i64::MAX as f64)) && (f >= (i64::MIN as f64)) {
+                        Ok(Number::Integer(f as i64))
                     } else {
                         Ok(Number::from(f))
                     }
